@@ -11,11 +11,13 @@ side ExpandDecl = the manual's textual substitution carried out by hand), progra
     recursion, EXITM in IF, label privacy, INCLUDE nesting, adjacent \\a\\\\b\\ parameters) is run line by line;
     TLC checks  delivered = ExpandDecl(program), label privacy, balance of tag / symbol-space / IF stacks.
     Two instances: Fixed = all (the design with the proposed repairs is transparent for every definite program)
-    and Fixed = {} (the code as it is: the six named deviations are the only reasons for a difference).
+    and Fixed = the repairs recorded as applied in known_findings/*.json (the code as it is: the remaining named
+    deviations are the only reasons for a difference).
 (G) MacroProc_Gen: TLC enumerates the replay families (0..20 parameters incl. numbers 8, 9, 12, 16, 17; positional,
     empty, keyword, mixed, default, excess arguments; arguments spelled like other parameters; counts 0..40 for
     REPT/IRP/IRPC/WHILE with a SET counter; IRPN group sizes 1..4 with ragged tails; SHIFT/ALLARGS recursion up to
-    20 arguments; EXITM inside IF in REPT/IRP/WHILE/MACRO/MACRO+REPT; labels private vs GLOBALSYMBOLS; the private
+    20 arguments; the argument list as a sequence SHIFT walks through (family `shifthole`: 0..3 formals, 1..4 excess
+    arguments each independently empty or not, every live formal + ARGCOUNT + ALLARGS after 0..3 SHIFTs); EXITM inside IF in REPT/IRP/WHILE/MACRO/MACRO+REPT; labels private vs GLOBALSYMBOLS; the private
     symbol space across a nested construct (family `scope`: outer REPT/IRP/IRPN/IRPC/WHILE/MACRO expanded twice,
     label defined before, used inside and after, another label defined after an inner REPT/IRP/IRPN/IRPC/WHILE/
     macro call/empty macro/INCLUDE with 0..3 iterations, same-named global label present); nested
@@ -55,11 +57,29 @@ from vlib.common import CheckError, Phase, log, pmap, rng
 from vlib.report import Report
 
 PID = "C11"
-ALLDEVS = ["EmptyBodyPop", "IrpcEmptyOnce", "TokenStraddle", "ShiftExcess", "IrpPosNext", "IrpDoubleCleanup"]
+# the "code as it is" instances use Fixed = repaired_in_repo(): repairs recorded as applied in known_findings
+ALLDEVS = ["EmptyBodyPop", "IrpcEmptyOnce", "TokenStraddle", "ShiftExcess", "IrpPosNext", "IrpDoubleCleanup",
+           "AllArgsLeadingEmpty"]
 FIXED_ALL = "{" + ", ".join('"%s"' % d for d in ALLDEVS) + "}"
 
-QUICK_FAMILIES = ["exit", "label", "scope", "incl", "bin", "count", "rec", "shift", "adj", "bind", "special", "attr", "nest2q"]
-THOROUGH_FAMILIES = ["exit", "label", "scope", "incl", "bin", "count", "rec", "shift", "adj", "bind", "special", "attr",
+
+def repaired_in_repo():
+    """named deviations whose repair is recorded as applied (known_findings/*.json, "status": "fixed", field "dev"):
+    the "code as it is" instance of the model is the pinned code with exactly these repairs"""
+    import glob
+    import json
+    out = set()
+    for path in glob.glob(os.path.join(os.path.dirname(os.path.dirname(os.path.abspath(__file__))), "known_findings", "C*.json")):
+        try:
+            for f in json.load(open(path)).get("findings", []):
+                if f.get("status") == "fixed" and f.get("dev") in ALLDEVS:
+                    out.add(f["dev"])
+        except (OSError, ValueError):
+            pass
+    return "{" + ", ".join('"%s"' % d for d in sorted(out)) + "}"
+
+QUICK_FAMILIES = ["exit", "label", "scope", "incl", "bin", "count", "rec", "shift", "shifthole", "adj", "bind", "special", "attr", "nest2q"]
+THOROUGH_FAMILIES = ["exit", "label", "scope", "incl", "bin", "count", "rec", "shift", "shifthole", "adj", "bind", "special", "attr",
                      "nest2", "nest3"]
 
 
@@ -84,13 +104,13 @@ def mc_cfg(tier, fixed, variant=0):
         c = "MaxD = 2 Cnts = {0, 2} NPre = 1 NPost = 1 Rich = TRUE Focus = TRUE"        # code as it is, rich profile
     inv = "Transparent Private Balanced NoDevWhenFixed TagsOK" if fixed else "TransparentUnlessDev Private Balanced TagsOK"
     return ("CONSTANTS Fixed = %s HasAttrs = FALSE MaxNum = 99\n          %s\nSPECIFICATION Spec\nINVARIANTS %s\n"
-            "CHECK_DEADLOCK FALSE\n" % (FIXED_ALL if fixed else "{}", c, inv))
+            "CHECK_DEADLOCK FALSE\n" % (FIXED_ALL if fixed else repaired_in_repo(), c, inv))
 
 
 def gen_cfg(family, tier):
-    return ('CONSTANTS Fixed = {} HasAttrs = %s MaxNum = %d Family = "%s" Tier = "%s"\nINIT Init\nNEXT Next\n'
+    return ('CONSTANTS Fixed = %s HasAttrs = %s MaxNum = %d Family = "%s" Tier = "%s"\nINIT Init\nNEXT Next\n'
             'INVARIANTS Dump Agrees\nCHECK_DEADLOCK FALSE\n'
-            % ("TRUE" if family == "attr" else "FALSE", 700 if family == "bin" else 99, family, tier))
+            % (repaired_in_repo(), "TRUE" if family == "attr" else "FALSE", 700 if family == "bin" else 99, family, tier))
 
 
 DRIFT = {}
@@ -282,7 +302,9 @@ def main(tier):
             tres = aslrun.assemble_many(bld, tj)
         execs = [trace_events(o, r) for o, r in zip(cand, tres) if r.trace]
         with Phase("validate %d events" % sum(len(x) for x in execs)):
-            v = tracecheck.validate("MacroProc_Trace", execs, timeout=1500, mem="6g")
+            tcfg = _cfg("_c11_trace.cfg", "CONSTANTS Fixed = %s HasAttrs = FALSE MaxNum = 700\nINIT TInit\nNEXT TNext\n"
+                                          "POSTCONDITION Accepted\nCHECK_DEADLOCK FALSE\n" % repaired_in_repo())
+            v = tracecheck.validate("MacroProc_Trace", execs, cfg=tcfg, timeout=1500, mem="6g")
         rep.part("MacroProc_Trace(generated)", events=v.events, executions=v.executions, accepted=v.accepted,
                  distinct_states=v.states, wall_s=v.wall)
         rep.cov["states"] += v.states
@@ -345,7 +367,9 @@ def corpus_trace(rep, bld, tier):
             execs.append(ev)
             names.append(name)
     with Phase("validate %d golden executions, %d events" % (len(execs), sum(len(x) for x in execs))):
-        v = tracecheck.validate("MacroProc_CorpusTrace", execs, timeout=1700, mem="8g")
+        ccfg = _cfg("_c11_ctrace.cfg", "CONSTANTS Fixed = %s HasAttrs = TRUE MaxNum = 999\nINIT TInit\nNEXT TNext\n"
+                                       "POSTCONDITION Accepted\nCHECK_DEADLOCK FALSE\n" % repaired_in_repo())
+        v = tracecheck.validate("MacroProc_CorpusTrace", execs, cfg=ccfg, timeout=1700, mem="8g")
     rep.part("MacroProc_CorpusTrace", events=v.events, executions=v.executions, accepted=v.accepted, tests=names,
              distinct_states=v.states, wall_s=v.wall, not_representable=skipped, unsupported=CORPUS_UNSUPPORTED)
     rep.cov["states"] += v.states
@@ -401,6 +425,12 @@ of the current /repo:
   IRP_Processor pops before the first iteration (the seed)                -> VIOLATION (scope)   (ctest 201/201)
   same in IRPC_Processor / REPT_Processor / WHILE_Processor               -> VIOLATION each      (ctest 201/201)
   MACRO_Restorer never pops                                               -> VIOLATION           (ctest 186/201)
+Third round (seed missed: an EMPTY argument in an EXCESS position was dropped from the argument list) - family
+`shifthole` added; on a copy of the current /repo:
+  ExpandMacro appends only non-empty excess arguments                     -> VIOLATION (shifthole) (ctest 201/201)
+  The new family also exposed a defect of the pinned tree (ALLARGS after SHIFT loses leading empty arguments,
+  ComputeMacroStrings): named deviation AllArgsLeadingEmpty, proposed_fixes/C11-allargs-after-shift-drops-leading-
+  empty.diff; all 94 differing quick-tier programs are exactly the ones the as-coded operator predicts.
 Corrupted traces (MacroProc_CorpusTrace on t_irpn): one token of a delivered body line changed, one delivered line
 dropped, exhausted flag flipped, depth changed -> each REJECTED at the corrupted event.
 All six proposed fixes applied together: 0 violations, no known finding hit, 201/201 golden tests.
